@@ -46,7 +46,7 @@ ReexVerdict(e) ==
   IF e.A.k # e.B.k THEN "kind"
   ELSE IF ~(Rep(e.A) /\ Rep(e.B) /\ Small(e.A) /\ Small(e.B)) THEN "undecided"
   ELSE IF DV(e.A.u) # DV(e.B.u) THEN "dim"
-  ELSE LET c == PVRat(VSub(SV(e.B.u), SV(e.A.u)))
+  ELSE LET c == PVRat(VSub(e.B.sv, e.A.sv))
            w == Map1(LAMBDA x : CMul(G(x), c), e.B.v) IN
        IF Len(e.A.v) # Len(e.B.v) THEN "value"
        ELSE IF ~AllOk(w) THEN "undecided"
